@@ -90,30 +90,30 @@ theorem addr_in_bounds (fb i : Nat) (hfb : 1 ≤ fb) (hfb' : fb < 64) (hi : i < 
     simp only [hk]
     omega
 
-/-- **Ranges tile.** For every set of concurrent push_back / grow_by / grow_to_at_least calls and
-every interleaving of their accesses to the size word, the ranges handed out (in hand-out order) are
-non-empty, contiguous and exactly cover `[0, size)`. -/
-theorem grow_ranges_tile (ops : List Op) (sched : List Tid) :
-    tiles 0 ((sys ops).run sched).log ((sys ops).run sched).size :=
-  (inv_reachable ops sched).1
+/-- **Ranges tile.** For every set of threads, each issuing any sequence of push_back / grow_by /
+grow_to_at_least calls, and every interleaving of their accesses to the size word, the ranges handed out
+(in hand-out order) are non-empty, contiguous and exactly cover `[0, size)`. -/
+theorem grow_ranges_tile (progs : List (List Op)) (sched : List Tid) :
+    tiles 0 ((sys progs).run sched).log ((sys progs).run sched).size :=
+  (inv_reachable progs sched).1
 
 /-- Hence the ranges are pairwise disjoint … -/
-theorem grow_ranges_disjoint (ops : List Op) (sched : List Tid) :
-    ((sys ops).run sched).log.Pairwise (fun r s => r.2 ≤ s.1) :=
-  tiles_pairwise _ _ _ (grow_ranges_tile ops sched)
+theorem grow_ranges_disjoint (progs : List (List Op)) (sched : List Tid) :
+    ((sys progs).run sched).log.Pairwise (fun r s => r.2 ≤ s.1) :=
+  tiles_pairwise _ _ _ (grow_ranges_tile progs sched)
 
 /-- … and every index below `size` belongs to a handed-out range. -/
-theorem grow_ranges_cover (ops : List Op) (sched : List Tid) (i : Nat)
-    (h : i < ((sys ops).run sched).size) :
-    ∃ r ∈ ((sys ops).run sched).log, r.1 ≤ i ∧ i < r.2 :=
-  tiles_cover _ _ _ (grow_ranges_tile ops sched) i (Nat.zero_le _) h
+theorem grow_ranges_cover (progs : List (List Op)) (sched : List Tid) (i : Nat)
+    (h : i < ((sys progs).run sched).size) :
+    ∃ r ∈ ((sys progs).run sched).log, r.1 ≤ i ∧ i < r.2 :=
+  tiles_cover _ _ _ (grow_ranges_tile progs sched) i (Nat.zero_le _) h
 
-/-- The range a call holds is one of the ranges the size word handed out (a call never constructs
-outside what it claimed), and a call holds a range only once it is past its claiming access. -/
-theorem claim_is_handed_out (ops : List Op) (sched : List Tid) (tid : Nat) (t : Th)
-    (h : ((sys ops).run sched).ths[tid]? = some t) (r : Nat × Nat) (hr : t.claim = some r) :
-    r ∈ ((sys ops).run sched).log :=
-  (inv_reachable ops sched).2.2 tid t h r hr
+/-- Every range a thread's completed calls own is one of the ranges the size word handed out (a call never
+constructs outside what it claimed). -/
+theorem claim_is_handed_out (progs : List (List Op)) (sched : List Tid) (tid : Nat) (t : Th)
+    (h : ((sys progs).run sched).ths[tid]? = some t) (r : Nat × Nat) (hr : r ∈ t.claims) :
+    r ∈ ((sys progs).run sched).log :=
+  (inv_reachable progs sched).2.1 tid t h r hr
 
 /-- **grow_to_at_least constructs what it claims**, for every pair of 64-bit sizes: after the CAS loop
 left `old` in the local, the call runs `internal_grow(old, new)` iff `old < new`.  Stated over the
@@ -123,10 +123,10 @@ theorem gtal_guard_exact (old new : Nat) (ho : old < 2 ^ 64) (hn : new < 2 ^ 64)
     gtalGrows old new = true ↔ old < new := by
   simp [gtalGrows, Generated.C11.gtalGuard]
 
-/-! Non-vacuity: a concrete 3-thread run in which `grow_to_at_least` loses a CAS race and retries. -/
+/-! Non-vacuity: a concrete 3-thread run in which `grow_to_at_least` loses two CAS races and retries. -/
 example :
-    let r := (sys [.growTo 5, .growBy 3, .pushBack]).run [0, 1, 0, 2, 0, 0]
-    r.size = 5 ∧ r.log = [(0, 3), (3, 4), (4, 5)] := by decide
+    let r := (sys [[.growTo 5, .pushBack], [.growBy 3], [.pushBack]]).run [0, 1, 0, 2, 0, 0, 0]
+    r.size = 6 ∧ r.log = [(0, 3), (3, 4), (4, 5), (5, 6)] ∧ (r.ths.map (·.claims)) = [[(5, 6), (4, 5)], [(0, 3)], [(3, 4)]] := by decide
 
 example : segIndex 0 = 0 ∧ segIndex 1 = 0 ∧ segIndex 2 = 1 ∧ segIndex 7 = 2 ∧ segIndex 8 = 3 ∧
     segIndex (2 ^ 63 + 5) = 63 ∧ segBase 0 = 0 ∧ segBase 1 = 2 ∧ segBase 63 = 2 ^ 63 := by decide
